@@ -180,12 +180,18 @@ func c20Script(kind, body string) c20Val {
 	}}
 }
 
+// c20Nil marks a value as nil-like: `v ?? 0` is not a provenance of it
+func c20Nil(v c20Val) c20Val { v.isNil = true; return v }
+
 func c20MakeVals() []c20Val {
 	vs := []c20Val{
 		c20Go("int", func() interface{} { return int64(2) }),
 		c20Go("zero", func() interface{} { return int64(0) }),
 		c20Go("big", func() interface{} { return int64(5000) }), // outside the small-int cache
 		c20Go("huge", func() interface{} { return int64(9007199254740993) }), // not representable in float64
+		c20Nil(c20Go("nilslice", func() interface{} { return []int64(nil) })), // typed nil values
+		c20Nil(c20Go("nilmap", func() interface{} { return map[string]int64(nil) })),
+		c20Nil(c20Go("nilptr", func() interface{} { return (*int64)(nil) })),
 		c20Go("float", func() interface{} { return float64(2.5) }),
 		c20Go("str", func() interface{} { return "abc" }),
 		c20Go("strnum", func() interface{} { return "1" }),
@@ -436,10 +442,10 @@ func c20MakeTmpls() []c20Tmpl {
 	T("member-read-none", "$X.nope")
 	T("method-value-recv", "$X.Get()")
 	T("method-ptr-recv", "$X.Inc()")
-	add(c20Tmpl{id: "member-write-A", src: "$X.A = 7", skip: skip("struct")})
-	add(c20Tmpl{id: "member-write-I", src: `$X.I = "i"`, skip: skip("struct")})
-	add(c20Tmpl{id: "member-write-k", src: "$X.k = 7", skip: skip("struct")})
-	add(c20Tmpl{id: "member-write-new", src: "$X.j = 8", skip: skip("struct")})
+	add(c20Tmpl{id: "member-write-A", src: "$X.A = 7", skip: skip("struct"), strNeedsAssignable: true})
+	add(c20Tmpl{id: "member-write-I", src: `$X.I = "i"`, skip: skip("struct"), strNeedsAssignable: true})
+	add(c20Tmpl{id: "member-write-k", src: "$X.k = 7", skip: skip("struct"), strNeedsAssignable: true})
+	add(c20Tmpl{id: "member-write-new", src: "$X.j = 8", skip: skip("struct"), strNeedsAssignable: true})
 	T("deref-read", "*$X")
 	T("deref-write", "*$X = 5")
 	add(c20Tmpl{id: "elem-store-0", src: "$X[0] = 9", strNeedsAssignable: true})
@@ -482,6 +488,7 @@ func c20MakeTmpls() []c20Tmpl {
 	T("chan-send-val-typed", "ci <- $X\n<-ci")
 	T("delete-key-of", `delete($X, "k")`)
 	add(c20Tmpl{id: "delete-name", pre: "abc = 1", src: "delete($X)", follow: `abc ?? "gone"`})
+	add(c20Tmpl{id: "delete-global-flag", pre: "gdel = 1", src: "func(){ delete(\"gdel\", $X) }()", follow: `gdel ?? "gone"`})
 	T("delete-key", "m = {\"k\": 1, 2: 2, \"abc\": 3, true: 4}\ndelete(m, $X)\nm")
 	add(c20Tmpl{id: "throw", src: "throw $X", errMsg: true})
 
@@ -543,7 +550,7 @@ var c20Hex = regexp.MustCompile(`0x[0-9a-fA-F]+`)
 func c20NoAddr(s string) string { return c20Hex.ReplaceAllString(s, "0xADDR") }
 
 // operand kinds whose element store re-binds the container instead of mutating it
-var c20Rebinds = map[string]bool{"str": true, "strnum": true, "elist": true}
+var c20Rebinds = map[string]bool{"str": true, "strnum": true, "elist": true, "nilmap": true, "nilslice": true} // a store makes a new container and re-binds it
 
 // c20Render renders a result with its dynamic types; reference-like results are
 // additionally compared by identity with the operand objects.
